@@ -68,8 +68,38 @@ def _engine_types(kind):
     return (iteration.Engine,) if kind == "iteration" else (sql.Engine,)
 
 
+LIB_CACHE: dict = {}
+
+
 def to_lib(e):
-    """Build the library expression/predicate for a mini-AST node via public factories."""
+    """Shared library object for a mini-AST node (see ``_to_lib``)."""
+    obj = LIB_CACHE.get(e)
+    if obj is None:
+        obj = LIB_CACHE[e] = _to_lib(e)
+    return obj
+
+
+def polluted_expressions():
+    """Shared expression objects whose declared required columns no longer match what they read."""
+    bad = []
+    for ast, obj in LIB_CACHE.items():
+        try:
+            declared = frozenset(t.qualified_name for t in obj.columns_required)
+        except Exception as ex:  # noqa: BLE001
+            bad.append((ast, f"columns_required raised {type(ex).__name__}"))
+            continue
+        if declared != free_cols(ast):
+            bad.append((ast, f"declares {sorted(declared)} but reads {sorted(free_cols(ast))}"))
+    return bad
+
+
+def _to_lib(e):
+    """Build the library expression/predicate for a mini-AST node via public factories.
+
+    Cached per process: the same mini-AST node always yields the *same* library object, the way user
+    code re-uses an expression in several operations.  Library expressions are documented as immutable
+    values, so sharing is sound - and a change that mutates one (e.g. a cached column set) becomes
+    observable from every other operation holding it."""
     k = e[0]
     if k == "ref":
         return ColumnExpression.reference(tag(e[1]))
